@@ -71,11 +71,10 @@ Ltac def_contra Hc :=
 (* the code of a call: opcall pc (no argument) | load y; callpc (a filter parameter) | at least 3 instructions *)
 Ltac callf_inv Hc :=
   match type of Hc with context [lookup_cf ?f ?n ?l] => destruct (lookup_cf f n l) as [[?y|?p ?n0|?y]|] eqn:?; try discriminate end;
-  [match type of Hc with context [match ?args with [] => _ | _ :: _ => _ end] => destruct args as [|?a0 ?args'] end;
-   [|match type of Hc with context [if (Nat.ltb ?c ?s && ?r) then _ else _] => destruct (Nat.ltb c s && r); [|discriminate] end;
-     match type of Hc with context [comp_args ?C ?l ?p ?s] => destruct (comp_args C l p s) as [[[? ?] ?]|]; [|discriminate] end;
-     len_contra' Hc]
-  |].
+  try (match type of Hc with context [match ?args with [] => _ | _ :: _ => _ end] => destruct args as [|?a0 ?args'] end;
+       [|match type of Hc with context [if (Nat.ltb ?c ?s && ?r) then _ else _] => destruct (Nat.ltb c s && r); [|discriminate] end;
+         match type of Hc with context [comp_args ?C ?l ?p ?s] => destruct (comp_args C l p s) as [[[? ?] ?]|]; [|discriminate] end;
+         len_contra' Hc]).
 
 Lemma comp_nil : forall q ce cur pc nv sn nv' sn', comp q ce cur pc nv sn = Some ([], nv', sn') -> emptycode q = true /\ nv' = nv /\ sn' = sn.
 Proof.
